@@ -249,6 +249,7 @@ class Lift:
         self.before = []       # (anchor, occurrence, [lines])
         self.after = []
         self.at_end = []       # ghost lines spliced before the closing brace of the body (functions without a tail expression)
+        self.at_start = []     # ghost lines spliced right after the opening brace of the body
         self.rewrites = []     # (count, from, to)
         self.sig_rewrites = []
         self.body_only = False
@@ -612,6 +613,9 @@ def lift_item(src, lift):
         for anchor, occ, lines in lift.after:
             _, last = _line_anchor(src, bo, hi, anchor, occ, what)
             inserts.setdefault(last + 1, []).append('\n' + '\n'.join(lines) + '\n')
+            report['GHOST'] = report.get('GHOST', 0) + 1
+        if getattr(lift, 'at_start', None):
+            inserts.setdefault(bo + 1, []).append('\n' + '\n'.join(lift.at_start) + '\n')
             report['GHOST'] = report.get('GHOST', 0) + 1
         if getattr(lift, 'at_end', None):
             inserts.setdefault(hi, []).append('\n' + '\n'.join(lift.at_end) + '\n')
